@@ -350,7 +350,12 @@ class Blank(ExcelType):
     def _sort_key(self, other):
         if isinstance(other, Blank):
             return (self.sort_precedence, 0)
-        return other.__Blank__()._sort_key(self)
+        blank = other.__Blank__()
+        if blank is None:
+            # Dates have no blank value of their own; they order as their
+            # serial numbers, so a blank compares to them like zero.
+            blank = Number(0)
+        return blank._sort_key(self)
 
     def __and__(self, other):
         if isinstance(other, self.native_types + (Blank,)):
